@@ -2,7 +2,7 @@
 import os
 
 from . import core
-from .rules import stdio, cert, mark, exact, optstore, inval, idx, atomic, own, tokens, idxclass, copy, pair, structfree, buf, div, counter, sentinel, appendinit, verdict, basismap, zerotol, escape, lenclass, djsym, ndet, useb4check, norms, opencheck, shell, esolver, errlost, rescan, certdep, neverset, fmt, defaults, scratch, fullscan, slotleak, floatidx, sensemap, trunc, vtypezero, allockind, intdiv, strscan, localfield
+from .rules import stdio, cert, mark, exact, optstore, inval, idx, atomic, own, tokens, idxclass, copy, pair, structfree, buf, div, counter, sentinel, appendinit, verdict, basismap, zerotol, escape, lenclass, djsym, ndet, useb4check, norms, opencheck, shell, esolver, errlost, rescan, certdep, neverset, fmt, defaults, scratch, fullscan, slotleak, floatidx, sensemap, trunc, vtypezero, allockind, intdiv, strscan, localfield, rawidx
 from .effects import Effects
 
 FIX = os.path.join(os.path.dirname(os.path.abspath(__file__)), "fixtures")
@@ -419,7 +419,8 @@ PROPS = {
         "rules": [lambda prog, tier: exact.run(prog, {"READ": {"roots": ["mpq_QSread_prob", "mpq_QSget_prob"], "closure": True, "word": True}},
                                                floors=[("exact literal parser reachable from QSread_prob", ["mpq_QSread_prob"], "mpq_EGlpNumReadStrXc", 1),
                                                        ("exact literal parser reachable from ILLget_value", ["mpq_ILLget_value"], "mpq_EGlpNumReadStrXc", 1)]),
-                  lambda prog, tier: rescan.run(prog), lambda prog, tier: defaults.run(prog), lambda prog, tier: strscan.run(prog)],
+                  lambda prog, tier: rescan.run(prog), lambda prog, tier: defaults.run(prog), lambda prog, tier: strscan.run(prog),
+                  lambda prog, tier: rawidx.run(prog)],
         "technique": "lossy-conversion sink census over the reader call-graph closure of the rational instantiation (type-resolved, after "
                      "preprocessing: the #ifdef between the exact and the double literal reader is resolved as the build resolves it)",
         "explanation": "Decides one structural clause of C10: on every call path from mpq_QSread_prob / mpq_QSget_prob to the stored problem "
@@ -440,6 +441,7 @@ PROPS = {
                                                                                      ("mpq_QSread_prob", "mpq_QSget_prob", "mpq_QSread_basis", "mpq_QSread_and_load_basis")])), floor=60),
                   lambda prog, tier: allockind.run(prog),
                   lambda prog, tier: strscan.run(prog),
+                  lambda prog, tier: rawidx.run(prog),
                   lambda prog, tier: fmt.run(prog, scope=lambda f, _r=set(prog.reachable([prog.require_fn(r).key for r in
                                                                                           ("mpq_QSread_prob", "mpq_QSget_prob", "mpq_QSread_basis", "mpq_QSread_and_load_basis")])): f.key in _r, floor=200)],
         "technique": "census and classification of buffer-writing calls in the reader call-graph closures (destination array sizes from the "
@@ -532,6 +534,7 @@ PROPS = {
                   lambda prog, tier: intdiv.run(prog),
                   lambda prog, tier: localfield.run(prog, shared_eff(prog)),
                   lambda prog, tier: strscan.run(prog),
+                  lambda prog, tier: rawidx.run(prog),
                   lambda prog, tier: appendinit.run(prog),
                   lambda prog, tier: counter.run(prog),
                   lambda prog, tier: useb4check.run(prog),
@@ -659,17 +662,20 @@ _ADD = {
                          "stores into the raw LP's bounds; machine-word sink census with digit-bound discharge",
             "explanation": " (R-RESCAN) the denominator of p/q is scanned from the same state as the numerator; (R-EXPLICITBND) a bound given in the "
                            "file is never replaced by a default and finite defaults (binary upper bound) apply only to columns without any bound; "
-                           "(R-EXACT, machine word) literals are not assembled in a machine word.",
+                           "(R-EXACT, machine word) literals are not assembled in a machine word. (R-RAWIDX) the conversion of the parsed file "
+                           "into the stored problem subscripts raw arrays with raw indices and LP arrays with mapped indices only (a bound or name "
+                           "taken from the wrong numbering is the neighbour's as soon as an unused column was dropped).",
             "level_text": " Since session 3 three clauses of the scanner / default-bound semantics are decided structurally (state reset at '/', "
                           "explicit-versus-default flags, no machine-word accumulation)."},
     "C11": {"explanation": " (R-STRSCAN) no scan of a line runs past its terminator: a strchr set-membership test of a variable character also "
                            "tests it against NUL, and every loop that walks a char pointer has an exit test that NUL fails (value enumeration of the "
-                           "condition for NUL).",
+                           "condition for NUL). (R-FMT) no text of the input (a name, a line) is used as a format string on a reader path; "
+                           "(R-ERRLOST) the error code of a failing callee is examined before it is overwritten. (R-RAWIDX) in the raw-to-LP "
+                           "conversion no array of the converted LP is subscripted with a raw index and vice versa (index-space typing per loop).",
             "level_text": " (R-ALLOCKIND) arrays of exact numbers are created by the number-array allocator, never by a raw realloc (an MPS "
                           "file with an SOS section crashed the rational reader on the pinned tree).",
-            "technique": "; census of printf-like calls (set computed from the declarations) with literal / forwarded-format discharge",
-            "explanation": " (R-FMT) no text of the input (a name, a line) is used as a format string on a reader path; (R-ERRLOST) the error code of "
-                           "a failing callee is examined before it is overwritten."},
+            "technique": "; census of printf-like calls (set computed from the declarations) with literal / forwarded-format discharge; "
+                         "index-space typing of subscripts in the raw-to-LP conversion"},
     "C12": {"explanation": " (R-VTYPEZERO) wherever the simplex chooses a non-basic status from the variable type (initial basis, singular-basis "
                            "repair) STAT_ZERO is reachable for a free variable only, so the basic solution of the returned basis takes every non-basic "
                            "variable at one of its bounds. (R-LOCALFIELD) the verdict functions read no field of a local record that nothing wrote."},
@@ -687,7 +693,8 @@ _ADD = {
     "C16": {"explanation": " (R-STRFLAGS) no string function is applied to a flag array of the problem (a strncpy of intmarker stops at the first "
                            "continuous column)."},
     "C17": {"technique": "; capacity-governed allocation agreement (governed arrays discovered from their allocation sites); read-but-never-written "
-                         "field census; printf-format census; floating-point-derived subscript taint; four-array norm typestate at a basis load"},
+                         "field census; printf-format census; floating-point-derived subscript taint; four-array norm typestate at a basis load; "
+                         "index-space typing of subscripts in the raw-to-LP conversion (R-RAWIDX)"},
     "C18": {"technique": "; append-slot typestate with error-code / flag correlation; deep-release check of owning records"},
     "C19": {"technique": "; status-value enumeration through switch / if / conditional-expression forms; printf-format census; resource typestate on "
                          "esolver's main; exit-condition analysis of the print loops",
